@@ -69,6 +69,16 @@ is refused with `ErrEpochMismatch` like every other stale sync; the push-only cl
 passes through the detach/remove escape of `pullPack`).  Only `Server.init` reads it (into `Config`). -/
 def stalePushOnlyRefused : Bool := true
 
+/-- ONE-LINE SWITCH.  `false` = tree before `hooks/fix-c11-deactivate-holding-removed.patch`: the memory DB's
+`FindDocInfosByIDs` skips removed documents, so `clients.Deactivate` of a client that still holds a document
+a PEER removed fails on the count (plain error) – and `DB.DeactivateClient` refuses while a document is
+attached: such a client can never be deactivated (C11 deviation D1).  `true` = tree with the fix: the lookup
+by id returns removed documents too (as the MongoDB implementation does), the removed document is detached
+like any other (its pushables are discarded, the response carries the removed flag, the client's entry
+becomes detached, its version-vector row goes) and the deactivation completes.  Only `Server.init` reads it
+(into `Config`). -/
+def deactivateDetachesRemoved : Bool := true
+
 abbrev ClientId := Nat
 abbrev DocId := Nat
 
@@ -149,6 +159,7 @@ structure Config where
   detachGuardFirst : Bool := Server.detachGuardFirst
   pushAfterRemoveDiscards : Bool := Server.pushAfterRemoveDiscards
   detachWithoutOwnChange : Bool := Server.detachWithoutOwnChange
+  deactivateDetachesRemoved : Bool := Server.deactivateDetachesRemoved
   stalePushOnlyRefused : Bool := Server.stalePushOnlyRefused
 deriving Repr, Inhabited
 
@@ -371,6 +382,10 @@ def findLiveDoc (s : Server) (d : DocId) : Option Doc :=
   match s.findDoc d with
   | some x => if x.removed then none else some x
   | none => none
+
+/-- what `FindDocInfosByIDs` (used by `clients.Deactivate`) finds for one id -/
+def findHeldDoc (s : Server) (d : DocId) : Option Doc :=
+  if s.cfg.deactivateDetachesRemoved then s.findDoc d else s.findLiveDoc d
 
 def othersHold (c : ClientId) (d : DocId) (p : Nat × Client) : Bool :=
   p.1 != c && (p.2.statusOf d == some .attached || p.2.statusOf d == some .attaching)
@@ -782,8 +797,8 @@ def deactivate (s : Server) (c : ClientId) (order : List DocId) : Result :=
   match s.findActiveClient c with
   | .error e => (s, .error e)
   | .ok info =>
-    -- FindDocInfosByIDs skips removed documents; a count mismatch is a plain error
-    if (openDocs info order).any (fun d => (s.findLiveDoc d).isNone) then (s, .error .internal)
+    -- a count mismatch of `FindDocInfosByIDs` is a plain error; before the fix it skipped removed documents
+    if (openDocs info order).any (fun d => (s.findHeldDoc d).isNone) then (s, .error .internal)
     else
       match clusterDetachAll c s (openDocs info order) with
       | (s', .error e) => (s', .error e)
